@@ -11,6 +11,9 @@ pub enum Input {
     Generic,
     /// (lat, lon) in degrees (geodesic, latitude ops working in degrees...)
     GeoDeg,
+    /// zeros of either sign in every element, epochs included (neighbouring tuples whose epochs compare
+    /// equal without being the same number)
+    SignedZeros,
 }
 
 #[derive(Clone, Debug)]
@@ -52,6 +55,7 @@ pub fn catalogue() -> Vec<Entry> {
         e("helmert x=0.1 y=0.2 z=0.3 dx=0.01 dy=0.02 dz=0.03 t_epoch=2000", Cart),
         e("helmert x=0.1 y=0.2 z=0.3 dx=0.01 dy=0.02 dz=0.03 ds=0.5 t_epoch=2000 t_obs=2010", Cart),
         e("helmert x=1 rotation=3,2,1 exact convention=coordinate_frame", Cart),
+        e("helmert translation=-0,0,0 dx=1 dy=-1 t_epoch=0", SignedZeros),
         e("cart", Geo),
         e("cart ellps=intl inv", Cart),
         e("molodensky ellps_0=intl ellps_1=GRS80 dx=-87 dy=-96 dz=-120", Geo),
@@ -163,6 +167,16 @@ pub fn tuple_alphabet(input: Input) -> Vec<C4> {
             [1.5, 2.5, 3.5, 2001.],
             [5530.15, -1245.15, 100., 2010.],
             [0., -0., 0., 0.],
+        ],
+        Input::SignedZeros => vec![
+            [-0., -0., -0., 0.],
+            [-0., -0., -0., -0.],
+            [0., 0., 0., -0.],
+            [0., 0., 0., 0.],
+            [1., 2., 3., -0.],
+            [1., 2., 3., 0.],
+            [-0., 0., -0., 1.],
+            [0., -0., 0., -1.],
         ],
         Input::GeoDeg => vec![
             [55., 12., 100., 2001.],
